@@ -66,3 +66,20 @@ BENIGN += [
     dict(id="c14-local-accumulator", props=["C14", "C16"], file=S + "node.py",
          old="        return [node.value for node in self]", new="        out = []\n        for node in self:\n            out.append(node.value)\n        return out"),
 ]
+
+BENIGN += [
+    dict(id="c15-find-one-for-loop", props=["C15"], file=S + "query.py",
+         old="        try:\n            return next(iter(self.finditer(value)))\n        except StopIteration:\n            return None",
+         new="        for node in self.finditer(value):\n            return node\n        return None"),
+    dict(id="c15-find-one-next-default", props=["C15"], file=S + "query.py",
+         old="        try:\n            return next(iter(self.finditer(value)))\n        except StopIteration:\n            return None",
+         new="        return next(iter(self.finditer(value)), None)"),
+    dict(id="c15-apply-def", props=["C15"], file=S + "query.py",
+         old="    apply = find\n", new="    def apply(self, value: JSONValue) -> JSONPathNodeList:\n        return self.find(value)\n"),
+]
+
+BENIGN += [
+    dict(id="c19-position-prefix-slice", props=["C19"], file=S + "tokens.py",
+         old='        line_number = self.query.count("\\n", 0, self.index) + 1\n        column_number = self.index - self.query.rfind("\\n", 0, self.index)',
+         new='        before = self.query[: self.index]\n        line_number = before.count("\\n") + 1\n        column_number = self.index - before.rfind("\\n")'),
+]
